@@ -1074,7 +1074,17 @@ def dataframe_strategy(
 
     def make_row_strategy(col, checks):
         strategy = None
-        for check in checks:
+        # the row strategy replaces the element strategies of the columns, so
+        # it needs to fulfill the column-level checks too. Vectorized column
+        # checks with undefined strategies filter the whole dataframe.
+        column_checks = [
+            check
+            for check in col.checks
+            if check.strategy is not None
+            or STRATEGY_DISPATCHER.get((check.name, pd.DataFrame), None)
+            or check.element_wise
+        ]
+        for check in [*column_checks, *checks]:
             if check.strategy is not None:
                 strategy = check.strategy(
                     col.dtype,
